@@ -3,7 +3,7 @@
 Simulated dimension: a re-entrancy schedule. The scenario decides which system, at which queue
 position and timestep, mutates the list the scheduler is walking; the recorded per-timestep
 history is checked against conditions (a)-(f) of DESIGN.md section 5/C05."""
-from .common import Model, Rec, RefSched, SystemNotFoundError, gen_prio, gen_window, spec_defaults
+from .common import EqRec, Model, Rec, RefSched, SystemNotFoundError, gen_prio, gen_window, spec_defaults
 
 PROPERTY = "C05"
 QUICK_RUNS = 24000
@@ -18,7 +18,7 @@ COMPONENTS = {"real": ["ECAgent.Core.SystemManager (add_system, remove_system, e
                        "ECAgent.Core.System.clean_up"],
               "stub": ["System.execute bodies are harness recording systems driven by the scenario script"]}
 PROBES = ["actor_first", "actor_middle", "actor_last", "target_before", "target_self", "target_after",
-          "new_higher", "new_equal", "new_lower", "two_mutations_one_step", "hot_swap_same_id", "other_model_stepped_mid_timestep"]
+          "new_higher", "new_equal", "new_lower", "two_mutations_one_step", "hot_swap_same_id", "other_model_stepped_mid_timestep", "systems_with_value_equality"]
 SHRINK_LISTS = ["scripts", "systems"]
 SHRINK_SKIP = ("end",)
 
@@ -69,7 +69,7 @@ def generate(rng, tier):
             else:
                 actions.append({"op": "remove", "target": f"ghost{rng.randint(0, 3)}"})
         scripts.append({"actor": actor, "t": t, "actions": actions})
-    return {"systems": systems, "scripts": scripts, "steps": steps}
+    return {"systems": systems, "scripts": scripts, "steps": steps, "value_eq": rng.random() < 0.12}
 
 
 class World:
@@ -87,10 +87,13 @@ class World:
         self.gen = 0
         self.spec_of = {}
         self.other = None
+        self.value_eq = bool(sc.get("value_eq"))
+        if self.value_eq:
+            ctx.probe("systems_with_value_equality")
         self.uid_of = {}      # id -> uid of the currently registered instance
 
     def mk(self, spec):
-        o = Rec(spec, self.model, self)
+        o = (EqRec if self.value_eq else Rec)(spec, self.model, self)
         self.gen += 1
         o.uid = f"{spec['id']}#{self.gen}"       # instance identity: a re-registered id is a different system
         self.spec_of[o.uid] = spec
